@@ -722,6 +722,118 @@ fn cross_engine_part(rep: &Report) {
 // lazily built tables). Every run is its own child process; the reference is a child that only does the second step.
 // ---------------------------------------------------------------------------------------------
 /// (voice kind, one setter call applied to its default condition)
+// ---------------------------------------------------------------------------------------------
+// re-entrancy through the caller's own types
+// ---------------------------------------------------------------------------------------------
+/// A label line that is some caller's own type: its `as_ref` does work of its own - here, a whole synthesis on another engine
+/// (on the same thread, in the middle of the outer call's label loop).
+struct BusyLine<'a> {
+    text: &'a str,
+    fire: bool,
+    inner: &'a Engine,
+    inner_labels: &'a [String],
+    fired: std::cell::Cell<u32>,
+}
+impl AsRef<str> for BusyLine<'_> {
+    fn as_ref(&self) -> &str {
+        if self.fire {
+            self.fired.set(self.fired.get() + 1);
+            let _ = self.inner.synthesize(self.inner_labels);
+        }
+        self.text
+    }
+}
+/// A caller's own `ToLabels`: converts through the library's implementation for string slices, after (or before) rendering
+/// something else with another engine.
+struct FrontEnd<'a> {
+    lines: &'a [String],
+    inner: &'a Engine,
+    inner_labels: &'a [String],
+    inner_first: bool,
+}
+impl jbonsai::label::ToLabels for FrontEnd<'_> {
+    fn to_labels(self, condition: &jbonsai::Condition) -> Result<jbonsai::label::Labels, jbonsai::label::LabelError> {
+        if self.inner_first {
+            let _ = self.inner.synthesize(self.inner_labels);
+        }
+        let r = self.lines.to_labels(condition);
+        if !self.inner_first {
+            let mut g = self.inner.generator(self.inner_labels).ok();
+            if let Some(g) = g.as_mut() {
+                let mut buf = vec![0.0; g.fperiod()];
+                g.generate_step(&mut buf);
+            }
+        }
+        r
+    }
+}
+
+/// The outer call must give what it gives without the nested call: outer engines with alignment on and time-stamped lines,
+/// a pitch shift, another rate / frame period, a volume; inner engines with other values of the same settings and another
+/// voice.  `who` prefixes the violation keys (the part is shared with C15).
+pub fn reentrant_part(rep: &Report, who: &str) -> u64 {
+    let corpus = labels::corpus();
+    let plain: Vec<String> = corpus[40..44].to_vec();
+    let timed: Vec<String> = plain.iter().enumerate().map(|(i, l)| format!("{} {} {}", i * 900_000, (i + 1) * 900_000, l)).collect();
+    let inner_labels: Vec<String> = corpus[100..102].to_vec();
+    let mk = |kind: usize, acts: &[Act]| -> Engine { with_cond(&engine_kind(kind), acts) };
+    let outers: Vec<(String, Engine, &Vec<String>)> = vec![
+        ("mel-cepstral, alignment on, rate 16000, frame period 80".into(), mk(2, &[Act::Align(true), Act::Rate(16000), Act::Fperiod(80)]), &timed),
+        ("mel-cepstral, +5 half tones, threshold 0.05".into(), mk(2, &[Act::HalfTone(5.0)]), &plain),
+        ("LSP, alignment on, frame period 7, volume -6 dB".into(), mk(1, &[Act::Align(true), Act::Fperiod(7), Act::Volume(-6.0)]), &timed),
+        ("two voices, -3 half tones, speed 1.3, alpha 0.5".into(), mk(4, &[Act::HalfTone(-3.0), Act::Speed(1.3), Act::Alpha(0.5)]), &plain),
+    ];
+    let inners: Vec<(String, Engine)> = vec![
+        ("mel-cepstral at its defaults".into(), mk(0, &[])),
+        ("LSP, rate 48000, frame period 240, +12 half tones, alignment on".into(), mk(1, &[Act::Rate(48000), Act::Fperiod(240), Act::HalfTone(12.0), Act::Align(true)])),
+        ("mel-cepstral, frame period 3, speed 0.5, volume 20 dB, beta 0".into(), mk(6, &[Act::Fperiod(3), Act::Speed(0.5), Act::Volume(20.0), Act::Beta(0.0)])),
+    ];
+    let mut n = 0u64;
+    for (oname, outer, lines) in &outers {
+        let want = match synth(outer, lines) {
+            Ok(w) => w,
+            Err(e) => {
+                rep.violation(format!("{}reentrant-base", who), format!("outer synthesis fails: {}", e), json!({"outer": oname}));
+                continue;
+            }
+        };
+        for (iname, inner) in &inners {
+            // (a) a line type whose as_ref runs the inner synthesis: at the first, second, last line, and at every line
+            for fire_at in [Some(0usize), Some(1), Some(lines.len() - 1), None] {
+                let busy: Vec<BusyLine> = lines.iter().enumerate().map(|(i, l)| BusyLine { text: l, fire: fire_at.map(|k| k == i).unwrap_or(true), inner, inner_labels: &inner_labels, fired: Default::default() }).collect();
+                let got = catch(|| outer.synthesize(&busy[..]).map_err(|e| e.to_string()));
+                n += 1;
+                rep.eval(1);
+                rep.cmp(1);
+                let rp = json!({"outer_engine": oname, "outer_lines": lines, "inner_engine": iname, "inner_labels": inner_labels, "nested_call": format!("synthesize inside AsRef::<str>::as_ref of line {:?} (None: every line)", fire_at)});
+                rep.guard(busy.iter().any(|b| b.fired.get() > 0), "the label loop never called as_ref on the caller's line type");
+                match got {
+                    Ok(Ok(w)) if bits_eq(&w, &want) => {}
+                    Ok(Ok(w)) => rep.violation(format!("{}reentrant-as-ref", who), format!("a synthesis on another engine ({}) nested inside the label loop (as_ref of line {:?}) changes the outer result: {} vs {} samples, first difference at {:?}", iname, fire_at, w.len(), want.len(), w.iter().zip(&want).position(|(a, b)| a.to_bits() != b.to_bits())), rp),
+                    Ok(Err(e)) => rep.violation(format!("{}reentrant-as-ref", who), format!("outer synthesis fails with a nested call: {}", e), rp),
+                    Err(p) => rep.violation(format!("{}reentrant-panic@{}", who, site_of(&p)), p, rp),
+                }
+            }
+            // (b) a ToLabels of the caller's own, rendering with the inner engine before / after the conversion
+            for inner_first in [true, false] {
+                let got = catch(|| outer.synthesize(FrontEnd { lines: &lines[..], inner, inner_labels: &inner_labels, inner_first }).map_err(|e| e.to_string()));
+                n += 1;
+                rep.eval(1);
+                rep.cmp(1);
+                let rp = json!({"outer_engine": oname, "outer_lines": lines, "inner_engine": iname, "inner_labels": inner_labels, "nested_call": if inner_first { "synthesize inside the caller's ToLabels::to_labels, before converting" } else { "a generator opened and stepped once inside the caller's ToLabels::to_labels, after converting" }});
+                match got {
+                    Ok(Ok(w)) if bits_eq(&w, &want) => {}
+                    Ok(Ok(w)) => rep.violation(format!("{}reentrant-to-labels", who), format!("a nested call on another engine ({}) inside the caller's ToLabels changes the outer result: {} vs {} samples, first difference at {:?}", iname, w.len(), want.len(), w.iter().zip(&want).position(|(a, b)| a.to_bits() != b.to_bits())), rp),
+                    Ok(Err(e)) => rep.violation(format!("{}reentrant-to-labels", who), format!("outer synthesis fails with a nested call: {}", e), rp),
+                    Err(p) => rep.violation(format!("{}reentrant-panic@{}", who, site_of(&p)), p, rp),
+                }
+            }
+        }
+    }
+    rep.note("reentrant_cases", json!(n));
+    n
+}
+
 fn proc_items() -> Vec<(usize, Option<Act>)> {
     let mut v: Vec<(usize, Option<Act>)> = [0usize, 1, 2, 3, 6].iter().map(|k| (*k, None)).collect();
     let mut acts = setter_alphabet(3);
@@ -1021,12 +1133,13 @@ fn setter_alphabet(ns: usize) -> Vec<Act> {
 pub fn run(tier: Tier) -> i32 {
     let rep: &'static Report = Box::leak(Box::new(Report::new("C03", tier, "model_checking")));
     let monitor = Arc::new(HangMonitor::start(rep, "C03 call history"));
-    rep.set_rule("HIST (stateright BFS, no state merging): all call histories to the depth bound over {synthesize(u) for 4 utterances (one of them time-stamped), clone+synthesize, open a generator (<= 2 live), step it, finish it, set/reset 7 condition setters incl. alignment and frame period} on one real engine, every output compared bit-exactly with a baseline computed by a fresh child process for (condition values, labels); SCHED: for each tuple of programs {synthesize(u1), synthesize(u2), generator(u1) stepped, clone().synthesize(u1)} on one shared engine (mel-cepstral and LSP voices with GV, postfilter and mixed excitation, one and two states per phoneme; an interpolated 2-voice set), every schedule with <= B preemptions at verif-hooks sites under a controlled scheduler (one agent runs at a time), outputs compared with solo baselines; all sequences of <= 2/3 setter calls followed by one canonical assignment vs a fresh engine; generators of every ordered pair of voice kinds stepped alternately on one thread vs their solo syntheses; process history (every ordered pair of voice kinds and (setter value, default) pairs, the second synthesis of a fresh child process vs the same synthesis alone in a fresh child process); every setter value called on a clone / on the original / after a generator started, with the other copy or the running generator observed; compile-time Send/Sync/Clone assertion; non-trivial = history/schedule with at least two synthesis operations");
+    rep.set_rule("HIST (stateright BFS, no state merging): all call histories to the depth bound over {synthesize(u) for 4 utterances (one of them time-stamped), clone+synthesize, open a generator (<= 2 live), step it, finish it, set/reset 7 condition setters incl. alignment and frame period} on one real engine, every output compared bit-exactly with a baseline computed by a fresh child process for (condition values, labels); SCHED: for each tuple of programs {synthesize(u1), synthesize(u2), generator(u1) stepped, clone().synthesize(u1)} on one shared engine (mel-cepstral and LSP voices with GV, postfilter and mixed excitation, one and two states per phoneme; an interpolated 2-voice set), every schedule with <= B preemptions at verif-hooks sites under a controlled scheduler (one agent runs at a time), outputs compared with solo baselines; all sequences of <= 2/3 setter calls followed by one canonical assignment vs a fresh engine; generators of every ordered pair of voice kinds stepped alternately on one thread vs their solo syntheses; process history (every ordered pair of voice kinds and (setter value, default) pairs, the second synthesis of a fresh child process vs the same synthesis alone in a fresh child process); every setter value called on a clone / on the original / after a generator started, with the other copy or the running generator observed; a synthesis on another engine nested inside the outer call through the caller's own types (AsRef<str> of a label line, ToLabels), 4 outer x 3 inner engines; compile-time Send/Sync/Clone assertion; non-trivial = history/schedule with at least two synthesis operations");
     rep.assume("preemptions only at verif-hooks sites (fine: every site, impulse-response loop thinned to every 191st iteration; coarse: stage boundaries); at most 3 controlled threads and 2 preemptions; weak-memory effects are not modelled");
     static_part(rep);
     source_scan(rep);
     clone_part(rep);
     cross_engine_part(rep);
+    reentrant_part(rep, "");
     let utts = utterances();
     let mut total_sched = 0u64;
     let mut multi_trace = 0usize;
@@ -1255,6 +1368,86 @@ pub fn run(tier: Tier) -> i32 {
                 });
                 total_runs += nthr as u64;
                 mismatches += bad.load(Ordering::Relaxed);
+            }
+        }
+        // second kind of round: the threads speak five different utterances (all of the same number of labels, one of them silence
+        // only; three of them shared by two threads each), every thread with its own settings (warping, volume, postfilter, GV weight) on its own copy of the engine - what differs
+        // between concurrent calls is exactly what a process-wide cache with too coarse a key, or one updated in two steps,
+        // would mix up.  References are computed one after the other beforehand.
+        {
+            let sil: Vec<String> = corpus.iter().filter(|l| labels::centre(l) == "sil" || labels::centre(l) == "pau").take(3).cloned().collect();
+            let mut cfgs: Vec<(Engine, Vec<String>, f64, Vec<f64>)> = Vec::new();
+            for t in 0..8usize {
+                let mut e = engine_kind(if t % 4 == 3 { 1 } else { 9 });
+                let vol = [-6.0, 0.0, 6.0, 20.0, -12.5, 7.25, 0.5, -0.001][t];
+                e.condition.set_alpha([0.3, 0.42, 0.55, 0.6][t % 4]);
+                e.condition.set_beta([0.3, 0.0, 0.2, 0.4][(t / 2) % 4]);
+                e.condition.set_gv_weight(0, [1.0, 0.5, 1.5, 2.0][t % 4]);
+                e.condition.set_volume(vol);
+                // threads 0/1, 2/3 and 4/5 share an utterance (with different settings); 2/3 speak silence only
+                let ui = if t < 6 { t / 2 } else { t };
+                let u: Vec<String> = if ui == 1 && sil.len() == 3 { sil.clone() } else { corpus[40 + 97 * ui..43 + 97 * ui].to_vec() };
+                let reference = synth(&e, &u).unwrap_or_default();
+                cfgs.push((e, u, vol, reference));
+            }
+            let rounds = tier.pick(12, 60);
+            let bad = AtomicU64::new(0);
+            let bad_vol = AtomicU64::new(0);
+            for _round in 0..rounds {
+                let barrier = Arc::new(std::sync::Barrier::new(cfgs.len()));
+                std::thread::scope(|s| {
+                    for (e, u, vol, reference) in &cfgs {
+                        let barrier = barrier.clone();
+                        let (bad, bad_vol) = (&bad, &bad_vol);
+                        s.spawn(move || {
+                            barrier.wait();
+                            // a burst of setter calls on this thread's own copy, while the other threads do the same with
+                            // other values on theirs
+                            let burst = catch(|| {
+                                let mut c = e.clone();
+                                let mut wrong = 0u64;
+                                for k in 0..2000u32 {
+                                    c.condition.set_volume(*vol);
+                                    if !((c.condition.get_volume() - vol).abs() <= 1e-9) {
+                                        wrong += 1;
+                                    }
+                                    c.condition.set_alpha(0.1 + (k % 7) as f64 * 0.1);
+                                    if c.condition.get_alpha().to_bits() != (0.1 + (k % 7) as f64 * 0.1).to_bits() {
+                                        wrong += 1;
+                                    }
+                                }
+                                wrong
+                            });
+                            bad_vol.fetch_add(burst.unwrap_or(1), Ordering::Relaxed);
+                            for _ in 0..3 {
+                                let r = catch(|| {
+                                    let mut c = e.clone();
+                                    c.condition.set_volume(*vol);
+                                    let back = c.condition.get_volume();
+                                    (c.synthesize(&u[..]).ok(), back)
+                                });
+                                match r {
+                                    Ok((Some(w), back)) => {
+                                        if !bits_eq(&w, reference) {
+                                            bad.fetch_add(1, Ordering::Relaxed);
+                                        }
+                                        if !((back - vol).abs() <= 1e-9) {
+                                            bad_vol.fetch_add(1, Ordering::Relaxed);
+                                        }
+                                    }
+                                    _ => {
+                                        bad.fetch_add(1, Ordering::Relaxed);
+                                    }
+                                }
+                            }
+                        });
+                    }
+                });
+                total_runs += 3 * cfgs.len() as u64;
+            }
+            mismatches += bad.load(Ordering::Relaxed);
+            if bad.load(Ordering::Relaxed) + bad_vol.load(Ordering::Relaxed) > 0 {
+                rep.violation("free-run-mixed", format!("8 threads, each with its own utterance and settings on its own copy of the engine: {} syntheses differ from the same call made alone, {} setter read-backs are wrong", bad.load(Ordering::Relaxed), bad_vol.load(Ordering::Relaxed)), json!({"part": "free-run", "note": "real threads; not schedule-replayable"}));
             }
         }
         rep.eval(total_runs);
